@@ -1016,10 +1016,15 @@ class Translator:
             txt += "end GraphSlam.Gen\n"
             files[os.path.join(gen, g + ".lean")] = txt
         files[os.path.join(gen, "Dispatch.lean")] = self.render_dispatch()
+        # Layer-B decision expressions of graph.py (tools/translate/py2lean_graph.py); a stub when they cannot be located,
+        # so that the tie theorems (Props/Tie/GraphPy.lean) stop building
+        files[os.path.join(gen, "GraphPy.lean")] = getattr(self, "graph_txt", None) or (
+            "import GraphSlam.Core.Scalar\n\n/-! GENERATED: graph.py snippets could NOT be located in the current source:\n%s -/\n" % str(getattr(self, "graph_error", "not translated")).replace("-/", "- /"))
         man = []
         for d in self.defs:
             m = {k: v for k, v in d.items() if k != "body"}
             man.append(m)
+        man += getattr(self, "graph_man", [])
         files[os.path.join(out, "generated_manifest.json")] = json.dumps(dict(repo=self.repo, defs=man), indent=1, default=list) + "\n"
         changed = []
         for p, txt in files.items():
@@ -1097,6 +1102,8 @@ class BaseEdgeCtx(Ctx):
 def main(argv):
     import argparse
 
+    sys.path.insert(0, os.path.dirname(os.path.abspath(__file__)))
+
     ap = argparse.ArgumentParser()
     ap.add_argument("--repo", default=os.environ.get("VERIF_REPO", "/repo"))
     ap.add_argument("--out", default=os.path.join(os.path.dirname(os.path.abspath(__file__)), "..", "..", "lean"))
@@ -1113,8 +1120,20 @@ def main(argv):
     except (KeyError, SyntaxError, FileNotFoundError, IndexError, AttributeError, TypeError) as e:
         print(json.dumps(dict(status="untranslatable", file="?", line=0, reason="%s: %s" % (type(e).__name__, e))))
         return 3
+    import py2lean_graph as PG
+
+    graph = dict(status="ok")
+    try:
+        tr.graph_txt, tr.graph_man = PG.translate(open(os.path.join(a.repo, "graphslam", "graph.py")).read())
+        graph["defs"] = len(tr.graph_man)
+    except PG.Untranslatable as e:
+        tr.graph_error = str(e)
+        graph = dict(status="untranslatable", file=e.file, line=e.line, reason=e.reason)
+    except (KeyError, SyntaxError, FileNotFoundError, IndexError, AttributeError, TypeError, ValueError) as e:
+        tr.graph_error = "%s: %s" % (type(e).__name__, e)
+        graph = dict(status="untranslatable", file="graphslam/graph.py", line=0, reason=tr.graph_error)
     changed = tr.write(os.path.abspath(a.out))
-    print(json.dumps(dict(status="ok", defs=len(tr.defs), changed=changed)))
+    print(json.dumps(dict(status="ok", defs=len(tr.defs) + len(getattr(tr, "graph_man", [])), changed=changed, graph=graph)))
     return 0
 
 
